@@ -62,6 +62,7 @@ Section Thm.
     Let file := ws_file (end_seg c (run_puts sN last)).
 
     Theorem C12_reject_roots_thm roots' : ~ Permutation roots roots' ->
+      reopen_refusal hdrdec o roots' file = Some RMismatch /\
       reopen hdrdec k o nilroots roots' file = inr (EOther, mkdev file [] []).
     Proof.
       intros HP. destruct (reachable_inv segs last s0 sN Hb Hopen Hrun) as (st & HI).
@@ -71,6 +72,7 @@ Section Thm.
     Qed.
 
     Theorem C12_reject_version_thm :
+      reopen_refusal hdrdec (with_v1 o (negb (w_v1 o))) roots file = Some RVersion /\
       reopen hdrdec k (with_v1 o (negb (w_v1 o))) nilroots roots file = inr (EOther, mkdev file [] []).
     Proof.
       destruct (reachable_inv segs last s0 sN Hb Hopen Hrun) as (st & HI).
@@ -81,7 +83,10 @@ Section Thm.
     Theorem C12_reject_padding_thm p' :
       w_v1 o = false -> p' <> w_dpad o -> 51 + p' < two64 ->
       finalized_file file || negb (header_at hdrdec (with_dpad o p') roots file) = true ->
-      exists e, reopen hdrdec k (with_dpad o p') nilroots roots file = inr (e, mkdev file [] []).
+      reopen_refusal hdrdec (with_dpad o p') roots file
+        = Some (padding_refusal hdrdec (with_dpad o p') roots file) /\
+      reopen hdrdec k (with_dpad o p') nilroots roots file
+        = inr (refusal_err (padding_refusal hdrdec (with_dpad o p') roots file), mkdev file [] []).
     Proof.
       intros Ev Hp H64. destruct (reachable_inv segs last s0 sN Hb Hopen Hrun) as (st & HI).
       unfold file. rewrite (end_seg_file k o nilroots roots _ _ c HI).
